@@ -91,10 +91,17 @@ func (s *c14Signer) SignMessage(_ context.Context, msg []byte,
 
 	k := int(loc.Index)
 	s.lastMsg, s.lastLoc = append([]byte(nil), msg...), loc
-	if k < 1 || k >= len(s.keys.priv) {
-		return nil, fmt.Errorf("no such key")
+	var priv *btcec.PrivateKey
+	if k >= 1 && k < len(s.keys.priv) {
+		priv = s.keys.priv[k]
+	} else {
+		// a locator outside the table (e.g. a wallet-derived multisig key):
+		// some other key of the same wallet signs
+		h := sha256.Sum256([]byte(fmt.Sprintf("verif-foreign-key/%d/%d", loc.Family, loc.Index)))
+		priv, _ = btcec.PrivKeyFromBytes(h[:])
+		k = 900000 + int(loc.Index)
 	}
-	sig := ecdsa.Sign(s.keys.priv[k], chainhash.HashB(msg))
+	sig := ecdsa.Sign(priv, chainhash.HashB(msg))
 	s.log[hex.EncodeToString(sig.Serialize())] = fmt.Sprintf("%d.%s", k, c14Hex(msg))
 	// pool parses the result with lnwire.NewSigFromECDSARawSignature, i.e.
 	// it expects the DER encoding lnd's signer RPC returns
